@@ -37,7 +37,9 @@ def run_case(ctx, f, name, refmode, task_self, task_other):
         o.attrs["param"] = Obj("param_of_" + o.name, owner_obj=o)
     dep = lambda owner, n: Obj("dep_%s_%s" % (owner.name[-1], n), owner=owner, name=n, __kind__="Parameter")
     rx_, ry_ = Obj("ref_of_x"), Obj("ref_of_y")
-    deps_of = {id(rx_): [dep(S, "a")], id(ry_): [dep(S, "b"), dep(T, "c")]}
+    # v mirrors a reference that depends on no parameter (a coroutine function, an async generator): no watcher serves it
+    rv_ = Obj("async_ref_of_v_without_dependencies")
+    deps_of = {id(rx_): [dep(S, "a")], id(ry_): [dep(S, "b"), dep(T, "c")], id(rv_): []}
     new = None
     if refmode == "new-U":
         new = Obj("new_ref_on_U")
@@ -50,7 +52,7 @@ def run_case(ctx, f, name, refmode, task_self, task_other):
         deps_of[id(new)] = []
     wS = Obj("old_watcher_on_S", inst=S, cls=Obj("cls_of_S"))
     wT = Obj("old_watcher_on_T", inst=T, cls=Obj("cls_of_T"))
-    old_refs = {"x": rx_, "y": ry_}
+    old_refs = {"x": rx_, "y": ry_, "v": rv_}
     tasks = {}
     t_self, t_other = Obj("pending_task_of_" + name), Obj("pending_task_of_other")
     log = []
@@ -61,7 +63,7 @@ def run_case(ctx, f, name, refmode, task_self, task_other):
         tasks["w"] = t_other
     private = Obj("private", refs=dict(old_refs), ref_watchers=[(("x", "y"), wS), (("y",), wT)], async_refs=tasks)
     inst = Obj("instance", _param__private=private)
-    pobjs = {k: Obj("P_" + k, nested_refs=False) for k in ("x", "y", "z")}
+    pobjs = {k: Obj("P_" + k, nested_refs=False) for k in ("x", "y", "z", "v")}
     ns = Obj("ns", self=inst, __getitem__=dict(pobjs), __contains__=list(pobjs))
     made = []
 
@@ -114,7 +116,7 @@ def model(ctx):
     f = ctx.repo.func(P + "Parameters._update_ref")
     problems = {"C08": [], "C10": []}
     n = 0
-    for name, refmode, task_self, task_other in itertools.product(["x", "y", "z"], ["none", "new-U", "new-S", "new-nodeps"], [False, True], [False, True]):
+    for name, refmode, task_self, task_other in itertools.product(["x", "y", "z", "v"], ["none", "new-U", "new-S", "new-nodeps"], [False, True], [False, True]):
         try:
             o, private, log, recv, src, (wS, wT), old_refs, new, deps_of, (t_self, t_other) = run_case(ctx, f, name, refmode, task_self, task_other)
         except Unsupported as e:
@@ -154,6 +156,9 @@ def model(ctx):
         refs = private.attrs["refs"]
         if not isinstance(refs, dict) or set(refs) != set(want_refs) or any(refs[k] is not want_refs[k] for k in want_refs):
             problems["C08"].append("%s: refs is %s afterwards, specification %s" % (desc, sorted(refs) if isinstance(refs, dict) else refs, sorted(want_refs)))
+            if isinstance(refs, dict) and name in old_refs and refs.get(name) is old_refs[name]:
+                problems["C10"].append("%s: the superseded reference of `%s` is still registered afterwards: the next sync (any change of a sibling link's source) evaluates it again and its "
+                                       "result overwrites the plain value -- the reference was not cancelled for good" % (desc, name))
             continue
         # ---- new watchers: one per source of the new table
         want = {}
